@@ -15,7 +15,7 @@ func init() {
 		Technique:   "guarded-sink + loop-latch reachability on the SSA CFG of TaskRunner.Ensure, mustWait and run; who-may-call of run and of handler function values",
 		Explanation: "Structural necessary conditions for 'tasks never start before their prerequisites finished': (R1) TaskRunner.run is called only from Ensure and task handler function values are invoked only inside the goroutine closures of run/clean; (R2) in Ensure, r.run(t) is cut from the loop body entry by: handler registered, no tomb for the task, status not ready, status != Wait, mustWait(t)==false, (no schedule | not before the scheduled time), and the loop over blocked predicates exhausted with every predicate false; (R3) mustWait for a Do task advances over t.WaitTasks() only across Status()==Done and answers false only after the whole loop (so Wait, Doing, Error, Hold prerequisites block); for Undo tasks see C01-R2; (R4) run picks the do handler exactly under Do/Doing and the undo handler under Undo/Undoing; (R5) a Retry re-schedules only with After != 0 and the schedule is cleared before the handler goroutine starts; (R6) Ensure hands an aborted task to tryUndo only when no handler goroutine of that task is alive.",
 		NotDecided:  "that AtTime/clock comparisons are right for every clock value; fairness of Ensure passes.",
-		Run:         func(c *Ctx) { runC02(c); runC02x(c) },
+		Run:         func(c *Ctx) { runC02(c); runC02x(c); runC02z(c) },
 	})
 }
 
